@@ -201,7 +201,7 @@ pub fn case(p: Profile) -> BoxedStrategy<Case> {
                 prop::collection::vec(step(&p3), p3.steps.0..=p3.steps.1),
             )
         })
-        .prop_map(|(cfg, script, steps)| Case { cfg, script, steps })
+        .prop_map(|(cfg, script, steps)| Case { cfg, script, steps, matrix: None })
         .boxed()
 }
 
@@ -275,4 +275,30 @@ pub fn profile_for(prop: &str, thorough: bool) -> Profile {
         _ => {}
     }
     p
+}
+
+/// C03 part A: configurations and prefix states for the crash-point matrix
+pub fn matrix_case() -> BoxedStrategy<Case> {
+    let p = Profile::base();
+    (
+        1u8..=4,
+        any::<bool>(),
+        hooks(p.hooks_max),
+        hooks(p.hooks_max),
+        hooks(p.hooks_max),
+        0u8..=3,
+        0u8..=3,
+        any::<bool>(),
+    )
+        .prop_map(|(max_size, lifo, post_create, pre_recycle, post_recycle, idle, held, reject_backend)| {
+            let idle = idle.min(max_size);
+            let held = held.min(max_size - idle);
+            Case {
+                cfg: Cfg { max_size, lifo, post_create, pre_recycle, post_recycle },
+                script: Script::default(),
+                steps: vec![],
+                matrix: Some(MatrixSpec { idle, held, reject_backend }),
+            }
+        })
+        .boxed()
 }
